@@ -1,7 +1,10 @@
 import YProofs.Lemmas.KrylovLemmas
 import YProofs.Lemmas.KrylovMatrix
 import YProofs.Lemmas.KrylovTime
+import YProofs.Lemmas.KrylovExp
 import YProofs.Lemmas.SortLemmas
+import Mathlib.Algebra.Order.Field.Rat
+import Mathlib.Tactic.NormNum
 /-!
 # C18 — Krylov solvers agree with dense matrix functions (exact-arithmetic part)
 
@@ -15,7 +18,8 @@ linear map where invariant subspaces / polynomials are involved.
 * §1 `expand_relation`, `arnoldi_relation`, `lanczos_relation` : `f V[j] = Σ_i H[(i,j)] V[i]` for every built column
 * §2 `happy_invariant`, `happy_invariant_span` : after an exact happy breakdown `f V = V T`, `span V` is invariant
 * §3 `ritz_exact`, `eigs_ritz_exact` : eigen-pairs of `T` give eigen-pairs of `f`
-* §4 `expmv_exact_pow`, `expmv_exact_poly` : `p(f) (V y) = V (p(T) y)` for every polynomial `p`
+* §4 `expmv_exact_pow`, `expmv_exact_poly`, `expmv_exact` : `p(f) (V y) = V (p(T) y)` for every polynomial `p`,
+  and `exp(t f) (V y) = V (exp(t T) y)` over `ℝ`/`ℂ`
 * §5 `expmv_time`, `expmv_t_zero`, `expmv_zero_vector`, `expmv_zero_vector_error` : time bookkeeping of `expmv`
 * §6 `lin_solver_residual`, `lin_solver_sector`
 * §7 `krylov_sector`, `eigs_sector`
@@ -234,16 +238,119 @@ theorem expmv_exact_pow (f : E →ₗ[K] E) {m : Nat} (V : Fin m → E) (T : Mat
   pow_apply_comb f V T hFV k y
 
 /-- **C18 clause "expmv exact on an invariant subspace", polynomials**: `p(f) (V y) = V (p(T) y)` for every
-polynomial `p` – in particular for every partial sum of the exponential series of `t f`.
-
-The analytic limit is NOT proved here; its full statement is
-`expmv_exact` : for `K = ℝ` or `ℂ`, `E` a finite-dimensional normed space, `f : E →L[K] E`, same `hFV`:
-`NormedSpace.exp K (t • f) (∑ j, y j • V j) = ∑ j, ((NormedSpace.exp K (t • T)).mulVec y) j • V j`
-(it follows from this theorem applied to the partial sums and continuity of `y ↦ Σ y_j V_j` and of evaluation). -/
+polynomial `p` – in particular for every partial sum of the exponential series of `t f`. -/
 theorem expmv_exact_poly (f : E →ₗ[K] E) {m : Nat} (V : Fin m → E) (T : Matrix (Fin m) (Fin m) K)
     (hFV : ∀ j, f (V j) = ∑ i, T i j • V i) (p : Polynomial K) (y : Fin m → K) :
     (Polynomial.aeval f p) (∑ j, y j • V j) = ∑ j, ((Polynomial.aeval T p).mulVec y) j • V j :=
   aeval_apply_comb f V T hFV p y
+
+/-- **C18 clause "expmv exact on an invariant subspace", the exponential itself.**  `𝕂 = ℝ` or `ℂ`, `E` a complete
+normed space (every finite-dimensional one is), `f` continuous linear with `f V = V T` column-wise (e.g. after an
+exact happy breakdown, `happy_invariant_fin`): `exp(t f) (V y) = V (exp(t T) y)` for every `t` (any sign, complex
+included) – the dense matrix exponential of the SMALL matrix gives the exact action of `exp(t f)` on `span V`.
+`V` need not be orthonormal or independent. -/
+theorem expmv_exact {𝕂 F : Type} [RCLike 𝕂] [NormedAddCommGroup F] [NormedSpace 𝕂 F] [CompleteSpace F]
+    (f : F →L[𝕂] F) {m : Nat} (V : Fin m → F) (T : Matrix (Fin m) (Fin m) 𝕂)
+    (hFV : ∀ j, f (V j) = ∑ i, T i j • V i) (t : 𝕂) (y : Fin m → 𝕂) :
+    (NormedSpace.exp (t • f)) (∑ j, y j • V j) = ∑ j, ((NormedSpace.exp (t • T)).mulVec y) j • V j :=
+  exp_smul_apply_comb f V T hFV t y
+
+/-! ## §5 `expmv`: time bookkeeping of the adaptive loop -/
+
+section time
+variable {σ : Type} [LinearOrder K] [IsStrictOrderedRing K] (ip : E → E → K) (sq rp : K → K)
+
+/-- **C18 clause "expmv never overshoots; accepted steps sum to the requested time", loop form.**  ARBITRARY
+`f`, dense `expm`, controller `ctrl` (any accept/reject decisions, any proposals `tauNew`, `ncvNew`), any fuel.
+From `t_now = 0`, an empty record and a step size `0 < tau ≤ t_out - t_now` (whenever `t_now < t_out`): if the
+loop returns then (a) `t_now = t_out` exactly, (b) the recorded exponents are `sgn * τ` with `0 < τ`, the `τ`
+sum to `t_out`, hence the exponents sum to `sgn * t_out`, (c) every accepted `τ` fits into the time that was
+left before it (`older` = the steps accepted earlier). -/
+theorem expmv_loop_time (f : E → E) (expm : List (List K) → List (List K))
+    (ctrl : σ → CtrlIn K → CtrlOut K × σ) (tol : K) (herm : Bool) (ncvMax : Nat) (sgn tOut : K)
+    (fuel : Nat) (st st' : ES K E σ) (h0 : st.tNow = 0) (hOut : 0 ≤ tOut)
+    (htau : st.tNow < tOut → 0 < st.tau ∧ st.tau ≤ tOut - st.tNow) (hsteps : st.steps = [])
+    (h : expmvLoop (ordArith ip sq rp) f expm ctrl tol herm ncvMax sgn tOut fuel st = some st') :
+    st'.tNow = tOut ∧ st'.steps.sum = sgn * tOut ∧
+    ∃ taus : List K, st'.steps = taus.map (fun τ => sgn * τ) ∧ (∀ τ ∈ taus, 0 < τ) ∧ taus.sum = tOut ∧
+      ∀ newer older τ, taus = newer ++ τ :: older → 0 < τ ∧ τ ≤ tOut - older.sum := by
+  have hinv : TInv sgn tOut st := ⟨by rw [h0]; exact hOut, htau, ⟨[], by simp [hsteps], by simp, by simp [h0]⟩⟩
+  obtain ⟨hI, ht⟩ := expmvLoop_inv ip sq rp f expm ctrl tol herm ncvMax sgn tOut fuel st st' hinv h
+  obtain ⟨taus, h1, h2, h3⟩ := hI.steps
+  rw [ht] at h3
+  refine ⟨ht, ?_, taus, h1, h2, h3, fun newer older τ hs => steps_fit h2 h3 newer older τ hs⟩
+  rw [h1, ← h3, List.sum_map_mul_left, List.map_id']
+
+/-- one pass of the loop: a rejected pass leaves `t_now` and the record alone; an accepted pass advances by
+some `0 < τ ≤ t_out - t_now` (so `t_now` never exceeds `t_out`) and records `sgn * τ`; the invariant
+`t_now ≤ t_out ∧ (t_now < t_out → 0 < tau ≤ t_out - t_now)` is preserved. -/
+theorem expmv_iter_time (f : E → E) (expm : List (List K) → List (List K))
+    (ctrl : σ → CtrlIn K → CtrlOut K × σ) (tol : K) (herm : Bool) (ncvMax : Nat) (sgn tOut : K) (st : ES K E σ)
+    (hinv : TInv sgn tOut st) (hlt : st.tNow < tOut) :
+    TInv sgn tOut (expmvIter (ordArith ip sq rp) f expm ctrl tol herm ncvMax sgn tOut st) ∧
+    (((expmvIter (ordArith ip sq rp) f expm ctrl tol herm ncvMax sgn tOut st).tNow = st.tNow ∧
+      (expmvIter (ordArith ip sq rp) f expm ctrl tol herm ncvMax sgn tOut st).steps = st.steps) ∨
+     ∃ τ, 0 < τ ∧ τ ≤ tOut - st.tNow ∧
+      (expmvIter (ordArith ip sq rp) f expm ctrl tol herm ncvMax sgn tOut st).tNow = st.tNow + τ ∧
+      (expmvIter (ordArith ip sq rp) f expm ctrl tol herm ncvMax sgn tOut st).steps = sgn * τ :: st.steps) :=
+  expmvIter_inv ip sq rp f expm ctrl tol herm ncvMax sgn tOut st hinv hlt
+
+/-- **C18 clause "accepted steps sum to t; the sign of t multiplies every exponent"**, for `expmv` itself
+(vector of non-zero norm, any `t` including negative and zero): the exponents handed to the dense `expm`
+in the accepted passes are `(t/|t|) * τ` with `0 < τ`, `Σ τ = |t|`, and they sum to exactly `t`. -/
+theorem expmv_time (f : E → E) (expm : List (List K) → List (List K))
+    (ctrl : σ → CtrlIn K → CtrlOut K × σ) (mem0 : σ) (fuel size : Nat) (v : E) (t tol : K) (ncv : Nat)
+    (herm normalize : Bool) (out : ExpmvOut K E) (hv : sq (ip v v) ≠ 0)
+    (h : expmv (ordArith ip sq rp) f expm ctrl mem0 fuel size v t tol ncv herm normalize = .ok out) :
+    out.steps.sum = t ∧
+    ∃ taus : List K, out.steps = taus.map (fun τ => t / |t| * τ) ∧ (∀ τ ∈ taus, 0 < τ) ∧ taus.sum = |t| ∧
+      ∀ newer older τ, taus = newer ++ τ :: older → 0 < τ ∧ τ ≤ |t| - older.sum := by
+  rw [expmv_eq_of_ne ip sq rp f expm ctrl mem0 fuel size v t tol ncv herm normalize hv] at h
+  split at h
+  · exact absurd h (by simp)
+  · rename_i st hst
+    simp only [Except.ok.injEq] at h
+    subst h
+    obtain ⟨_, h2, h3⟩ := expmv_loop_time ip sq rp f expm ctrl tol herm (min 30 size) (t / |t|) |t| fuel _ st rfl
+      (abs_nonneg t) (fun hlt => ⟨by simpa using hlt, by simp⟩) rfl hst
+    refine ⟨?_, h3⟩
+    dsimp only
+    rw [h2]
+    by_cases ht : t = 0
+    · simp [ht]
+    · exact div_mul_cancel₀ t (abs_ne_zero.mpr ht)
+
+/-- **C18 clause "t = 0"**: the loop body never runs (no call of `f`, empty record) and the vector comes back
+rescaled by its own norm (`normalize = False`) resp. normalised. -/
+theorem expmv_t_zero (f : E → E) (expm : List (List K) → List (List K))
+    (ctrl : σ → CtrlIn K → CtrlOut K × σ) (mem0 : σ) (fuel size : Nat) (v : E) (tol : K) (ncv : Nat)
+    (herm normalize : Bool) (hv : sq (ip v v) ≠ 0) :
+    expmv (ordArith ip sq rp) f expm ctrl mem0 fuel size v 0 tol ncv herm normalize =
+      .ok { v := if normalize then ((1 : K) / sq (ip v v)) • v else sq (ip v v) • (((1 : K) / sq (ip v v)) • v),
+            steps := [], nf := 0, ncv := max 1 ncv } := by
+  rw [expmv_eq_of_ne ip sq rp f expm ctrl mem0 fuel size v 0 tol ncv herm normalize hv, abs_zero,
+    expmvLoop_done ip sq rp f expm ctrl tol herm (min 30 size) _ 0 fuel _ (lt_irrefl _)]
+
+/-- **C18 clause "zero vector, normalize = False"**: returned unchanged-by-the-loop (`normv • v` with
+`normv = 0` the computed norm), no call of `f`, for every `t`. -/
+theorem expmv_zero_vector (f : E → E) (expm : List (List K) → List (List K))
+    (ctrl : σ → CtrlIn K → CtrlOut K × σ) (mem0 : σ) (fuel size : Nat) (v : E) (t tol : K) (ncv : Nat)
+    (herm : Bool) (hv : sq (ip v v) = 0) :
+    expmv (ordArith ip sq rp) f expm ctrl mem0 fuel size v t tol ncv herm false =
+      .ok { v := sq (ip v v) • v, steps := [], nf := 0, ncv := max 1 ncv } := by
+  rw [expmv_eq_of_zero ip sq rp f expm ctrl mem0 fuel size v t tol ncv herm false hv,
+    expmvLoop_done ip sq rp f expm ctrl tol herm (min 30 size) _ 0 fuel _ (lt_irrefl _)]
+  rfl
+
+/-- **C18 clause "zero vector, normalize = True" is the error** -/
+theorem expmv_zero_vector_error (f : E → E) (expm : List (List K) → List (List K))
+    (ctrl : σ → CtrlIn K → CtrlOut K × σ) (mem0 : σ) (fuel size : Nat) (v : E) (t tol : K) (ncv : Nat)
+    (herm : Bool) (hv : sq (ip v v) = 0) :
+    expmv (ordArith ip sq rp) f expm ctrl mem0 fuel size v t tol ncv herm true = .error .zeroVector := by
+  rw [expmv_eq_of_zero ip sq rp f expm ctrl mem0 fuel size v t tol ncv herm true hv]
+  rfl
+
+end time
 
 /-! ## §6 `lin_solver`: the reported residual is the residual of the returned vector -/
 
@@ -347,5 +454,72 @@ theorem lin_solver_sector (f : Module.End K E) (lstsq : List (List K) → List K
       exact Submodule.smul_mem _ _ (self_mem_krylovSpace f _)) v (List.mem_of_mem_take hv)
 
 end sector
+
+/-! ## Non-vacuity: concrete instances over `K = ℚ`, `E = ℚ × ℚ` (kernel evaluation of the SAME definitions) -/
+
+section examples
+
+/-- non-symmetric operator `[[1,2],[3,1]]` -/
+def exF : ℚ × ℚ → ℚ × ℚ := fun p => (p.1 + 2 * p.2, 3 * p.1 + p.2)
+/-- non-symmetric operator `[[2,5],[1,3]]` -/
+def exG : ℚ × ℚ → ℚ × ℚ := fun p => (2 * p.1 + 5 * p.2, p.1 + 3 * p.2)
+/-- dot product -/
+def exIp : ℚ × ℚ → ℚ × ℚ → ℚ := fun a b => a.1 * b.1 + a.2 * b.2
+/-- `sqrt := id`, comparison `<` -/
+def exA : Arith ℚ (ℚ × ℚ) := fieldArith exIp id (fun x => |x|) id (fun a b => decide (a < b))
+/-- `sqrt := id`, comparison `≤` (with `tol = 0`: the exact breakdown test `‖w‖² ≤ 0`) -/
+def exB : Arith ℚ (ℚ × ℚ) := fieldArith exIp id (fun x => |x|) id (fun a b => decide (a ≤ b))
+
+/-- `hlt` is satisfiable: positive `tol`, comparison `<` -/
+example : ∀ x : ℚ, (fun a b : ℚ => decide (a < b)) x (1 / 100) = false → x ≠ 0 := hlt_of_pos (by norm_num)
+
+/-- Arnoldi, `ncv = 2`, no breakdown: two full columns (3 basis vectors), non-trivial entries -/
+example : (expand exA exF (1 / 100) 2 false { V := [(1, 0)], cols := [] }).1.cols
+    = [[1, 9], [2 / 3, 1 / 9, 64 / 729]] := by decide +kernel
+example : (expand exA exF (1 / 100) 2 false { V := [(1, 0)], cols := [] }).2 = false := by decide +kernel
+example : (expand exA exF (1 / 100) 2 false { V := [(1, 0)], cols := [] }).1.V
+    = [(1, 0), (0, 1 / 3), (0, 27 / 8)] := by decide +kernel
+
+/-- `arnoldi_relation` applies to this instance (all hypotheses discharged), column `j = 1` -/
+example :
+    exF ((expand exA exF (1 / 100) 2 false { V := [(1, 0)], cols := [] }).1.V.getD 1 0) =
+      ∑ i ∈ Finset.range 3,
+        hEntry exA (expand exA exF (1 / 100) 2 false { V := [(1, 0)], cols := [] }).1.cols i 1 •
+          (expand exA exF (1 / 100) 2 false { V := [(1, 0)], cols := [] }).1.V.getD i 0 :=
+  arnoldi_relation exIp id (fun x => |x|) id (fun a b => decide (a < b)) exF (1 / 100) 2 (1, 0)
+    (hlt_of_pos (by norm_num)) (by decide +kernel) 1 (by decide +kernel)
+
+/-- Lanczos on the same data: `H[(0,1)]` is the COPY of `H[(1,0)] = 9` -/
+example : (expand exA exF (1 / 100) 2 true { V := [(1, 0)], cols := [] }).1.cols
+    = [[1, 9], [9, 1 / 9, 50689 / 729]] := by decide +kernel
+
+/-- exact happy breakdown at `m = 2` (`ncv = 5`): `T = [[2,5],[1,3]]` is the operator itself -/
+example : expand exB exG 0 5 false { V := [(1, 0)], cols := [] }
+    = ({ V := [(1, 0), (0, 1)], cols := [[2, 1], [5, 3]] }, true) := by
+  have h1 : (expand exB exG 0 5 false { V := [(1, 0)], cols := [] }).1.V = [(1, 0), (0, 1)] := by decide +kernel
+  have h2 : (expand exB exG 0 5 false { V := [(1, 0)], cols := [] }).1.cols = [[2, 1], [5, 3]] := by decide +kernel
+  have h3 : (expand exB exG 0 5 false { V := [(1, 0)], cols := [] }).2 = true := by decide +kernel
+  rw [← h1, ← h2, ← h3]
+
+/-- `hlt` and `hdef` of `happy_invariant` are satisfiable together (comparison `≤`, `tol = 0`, definite `ip`) -/
+example : ∀ x : ℚ, (fun a b : ℚ => decide (a ≤ b)) x 0 = false → x ≠ 0 := by
+  intro x hx h0
+  subst h0
+  simp at hx
+example : ∀ w : ℚ × ℚ, (fun a b : ℚ => decide (a ≤ b)) (id (exIp w w)) 0 = true → w = 0 := by
+  intro w hw
+  have h : w.1 * w.1 + w.2 * w.2 ≤ 0 := of_decide_eq_true hw
+  have h1 : w.1 = 0 := by nlinarith [mul_self_nonneg w.1, mul_self_nonneg w.2]
+  have h2 : w.2 = 0 := by nlinarith [mul_self_nonneg w.1, mul_self_nonneg w.2]
+  exact Prod.ext h1 h2
+
+/-- `expmv` with `t = -2`, a controller that rejects every other pass and halves the step: three accepted
+steps, all negative, summing to `t` -/
+def exCtrl : Nat → CtrlIn ℚ → CtrlOut ℚ × Nat :=
+  fun n c => ({ accept := n % 2 == 1, tauNew := c.tau / 2, ncvNew := 2 }, n + 1)
+example : ((expmv (ordArith exIp id id) exF id exCtrl 0 20 2 (1, 0) (-2) (1 / 100) 2 false false).toOption.map
+    (fun o => (o.steps, o.nf))) = some ([-3 / 4, -1 / 4, -1], 6) := by decide +kernel
+
+end examples
 
 end YModel.Krylov
